@@ -88,7 +88,17 @@ def main():
                                 "./check <ID> %s with VERIF_REPO=<patched copy>" % (meta.get("demo_exit_without_change"), meta.get("demo_exit_with_change"), a.tier))
     finally:
         shutil.rmtree(d, ignore_errors=True)
-    json.dump(meta, open(os.path.join(dst, "meta.json"), "w"), indent=1)
+    mp = os.path.join(dst, "meta.json")
+    if os.path.exists(mp):
+        try:
+            old = json.load(open(mp))
+            prev = old.pop("previous_evaluations", [])
+            prev.append({"evaluated_at_verif_commit": old.get("evaluated_at_verif_commit"), "checks": {k: {"caught": v.get("caught"), "exit": v.get("exit"),
+                         "signatures": v.get("signatures", [])[:3]} for k, v in old.get("checks", {}).items()}})
+            meta["previous_evaluations"] = prev
+        except Exception:
+            pass
+    json.dump(meta, open(mp, "w"), indent=1)
     print(json.dumps({k: meta.get(k) for k in ("property", "name", "confirmed", "patch_applies", "demo_exit_without_change", "demo_exit_with_change",
                                                "suite_green_with_change")}))
     for pid, c in meta.get("checks", {}).items():
